@@ -375,6 +375,15 @@ func runWp(cfg wpCfg) (*wpRun, map[string]int) {
 // wpLines renders the log in the grammar of lean/GoLevel/Driver/WriteProto.lean.
 func wpLines(c *Ctx, evs []wpEvent) {
 	c.Lean("wp reset", "ok")
+	// ErrClosed returned by a writer that took part in a group (leader or merged member) is that group's
+	// error result; only a writer that never got that far "returns closed" in the sense of the model
+	inGroup := map[int]bool{}
+	for _, e := range evs {
+		switch e.kind {
+		case "lock", "leader", "accept":
+			inGroup[e.w] = true
+		}
+	}
 	for _, e := range evs {
 		switch e.kind {
 		case "call":
@@ -391,7 +400,7 @@ func wpLines(c *Ctx, evs []wpEvent) {
 			c.Lean("wp "+e.kind, "ok")
 		case "ret":
 			s := e.s
-			if s != "ok" && s != "closed" {
+			if s != "ok" && (s != "closed" || inGroup[e.w]) {
 				s = "err"
 			}
 			c.Lean(fmt.Sprintf("wp ret %d %s", e.w, s), "ok")
